@@ -20,6 +20,7 @@ func checkC10(p *Prog, r *Report) {
 	ruleC10Fresh(p, a, r)
 	ruleC10Root(p, a, r)
 	ruleC10Last(p, a, r)
+	ruleC10OwnList(p, a, r)
 }
 
 func ruleC10Valid(p *Prog, a *Anchors, r *Report) {
